@@ -56,7 +56,7 @@ def expected : List Gen.FnFact := [
   { name := "VM.Load", recovers := false,
     unprot := [".codeDump", ".run", ".treeDump", "compilePkgs"],
     stages := ["load", "compile", "run", "run"], bareErr := 0 },   -- the second "run": values left by top-level code
-  { name := "VM.Call", recovers := false, unprot := [".Func", ".Get"], stages := [], bareErr := 0 },
+  { name := "VM.Call", recovers := false, unprot := [".Func", ".Peek"], stages := [], bareErr := 0 },   -- (Peek: a map read)
   { name := "VM.Func", recovers := true, unprot := [".btErr"], stages := [], bareErr := 0 },
   { name := "VM.run", recovers := true, unprot := [".btErr"], stages := [], bareErr := 0 },
   { name := "VM.btErr", recovers := false, unprot := [".String"], stages := [], bareErr := 0 },
@@ -69,7 +69,8 @@ def expected : List Gen.FnFact := [
   { name := "declareFuncs", recovers := false, unprot := [".Index"], stages := [], bareErr := 0 },   -- (a loop over the package's declarations)
   -- compares two host objects; its recover guards that one comparison and nothing else (no call inside it)
   { name := "sameObject", recovers := true, unprot := [], stages := [], bareErr := 0 },
-  { name := "tokenize", recovers := false, unprot := [], stages := [], bareErr := 1 },
+  -- (tokenize calls text/scanner's Peek; since lookup.Peek exists the spelling counts - receivers are not resolved)
+  { name := "tokenize", recovers := false, unprot := [".Peek"], stages := [], bareErr := 1 },
   { name := "treeSort", recovers := false, unprot := [], stages := [], bareErr := 0 },
   { name := "joinFiles", recovers := false, unprot := ["symAtPos"], stages := [], bareErr := 0 },
   { name := "loadFile", recovers := false, unprot := ["loadImports", "rawLoadFile", "treeSort"], stages := ["loadFile"], bareErr := 0 },
